@@ -259,6 +259,19 @@ Theorem C02_roundtrip_concrete_ops_any_depth :
                                 n_op nd' = op_nf (HT md n) (nfT md md_nil md_is_nil n) (n_op nd)).
 Proof. exact roundtrip_any_depth. Qed.
 
+(* the same with metadata as the harness interns it (canonical JSON text -> N, 0 = {}): no hypothesis of any kind *)
+Theorem C02_roundtrip_concrete_ops_closed :
+  forall (n : nat) (h : hugr (op (HT N n)) N),
+    guardT N is0 n h = true -> ops_ok_b N (okT N is0 n) h = true ->
+    exists s h', to_serial (c_enc (HT N n) (ST N n) (encT N is0 n)) (c_ndp (HT N n)) is0 h = Some s /\
+                 from_serial (c_dec (HT N n) (ST N n) (decT N 0%N n)) (c_ndp (HT N n)) 0%N s = Some h' /\
+                 to_serial (c_enc (HT N n) (ST N n) (encT N is0 n)) (c_ndp (HT N n)) is0 h' = Some s /\
+                 Iso (c_enc (HT N n) (ST N n) (encT N is0 n)) h h' /\
+                 (forall i nd, get_node h i = Some nd ->
+                    exists nd', get_node h' (rank h i) = Some nd' /\
+                                n_op nd' = op_nf (HT N n) (nfT N 0%N is0 n) (n_op nd)).
+Proof. exact (roundtrip_any_depth N 0%N is0 is0_nil is0_unique). Qed.
+
 (* non-vacuity, depth 0: Module > FuncDecl, FuncDefn > Input, Output, Const Some(true), LoadConst, Const true, LoadConst,
    Call (function edge on the static port), DFG > Input, Output, Tag; a hole at index 3, metadata, an order link *)
 Example C02_concrete_ops_example :
@@ -439,6 +452,7 @@ Print Assumptions C02_concrete_ops_hypotheses_discharged.
 Print Assumptions C02_roundtrip_concrete_ops.
 Print Assumptions C02_concrete_document_nodes.
 Print Assumptions C02_roundtrip_concrete_ops_any_depth.
+Print Assumptions C02_roundtrip_concrete_ops_closed.
 Print Assumptions C02_concrete_ops_example.
 Print Assumptions C02_tag_without_variant_example.
 Print Assumptions C02_function_constant_example.
